@@ -56,7 +56,8 @@ struct carquet_bloom_filter {
  * Generate block index from hash.
  */
 static inline size_t bloom_filter_block_index(uint64_t hash, size_t num_blocks) {
-    return (size_t)((hash >> 32) % num_blocks);
+    /* Parquet split-block Bloom filter: multiply-shift of the upper 32 bits */
+    return (size_t)(((hash >> 32) * (uint64_t)num_blocks) >> 32);
 }
 
 /**
